@@ -69,6 +69,17 @@ func (c *Ctx) Budget(quick, thorough int) int {
 	return n
 }
 
+// Len picks a length/depth bound for the tier; a widened quick search goes one deeper, never multiplied.
+func (c *Ctx) Len(quick, thorough int) int {
+	if c.Thorough() {
+		return thorough
+	}
+	if c.Wide && quick < thorough {
+		return quick + 1
+	}
+	return quick
+}
+
 func (c *Ctx) Model(exe string) (*ModelProc, error) {
 	if m, ok := c.models[exe]; ok {
 		return m, nil
@@ -111,6 +122,15 @@ func main() {
 		workerMain()
 	case "setup":
 		os.Exit(setupMain())
+	case "lex":
+		b, _ := os.ReadFile(os.Args[2])
+		lexs, tail := ScanAll(b)
+		fmt.Println(lexStr(lexs, tail))
+		for _, l := range lexs {
+			if l.Ty == 'S' || l.Ty == 'E' {
+				fmt.Printf("  lib at %d: %s\n", l.B, LibLen(b, int(l.B), l.Ty == 'E'))
+			}
+		}
 	case "run":
 		os.Exit(runFileMain(os.Args[2], len(os.Args) > 3))
 	case "check":
